@@ -202,6 +202,14 @@ def run(ctx):
                     src = deep_roots(prog, do_edit, s[2][1])
                     if any(r.kind == "call" and r.ref is pc for r in src):
                         stored = True
+        # the re-parse is unconditional: once perform_edit changed text and tree, no path reaches a return without parsing
+        # (an edit "that cannot change the structure" — blanks for blanks — still can: ASI in JS, layout in Python)
+        from ..query import path_avoiding
+        pes = [c for c in do_edit.calls if c.name == "perform_edit"]
+        skipping = [c for c in pes if any(path_avoiding(do_edit, s2, [pc.bb], list(do_edit.return_blocks())) for s2 in do_edit.succ[c.bb])]
+        ctx.ob("R4", "re-parse on every path after the edit", bool(pes) and not skipping,
+               "every path from perform_edit to a return passes Doc::parse" if pes and not skipping else
+               "do_edit can return after perform_edit WITHOUT re-parsing: the edited document keeps the old tree's structure (shifted), which differs from a fresh parse wherever the edit changes tokenisation or layout", where=do_edit.loc(pc.line))
         ctx.ob("R4", "parse result stored", stored, "result of parse is assigned to self.inner" if stored else "result of parse is not stored into self.inner", where=do_edit.loc(pc.line))
 
 
